@@ -8,7 +8,7 @@ def config(T):
         "C03": dict(pkg="c03", fuzz=[dict(name="FuzzRoundTrip", secs=60)], tests=[T("TestPinned"), T("TestRoundTrip", 36000, 400000, sq=8, st=16)]),
         "C06": dict(pkg="c06", race_quick=True, tests=[T("TestKnownTypename"), T("TestSiblingHops", race=True), T("TestTransparent", 1600, 16000, sq=8, st=16), T("TestDirectivesGateway", 80, 4000, sq=4, st=8),
                                                        T("TestConcurrentRefresh", 30, 600, sq=1, st=4, race=True, timeout_q=900), T("TestRefreshAfterChange", 400, 6000, sq=4, st=8), T("TestCancelledRequest", 600, 12000, sq=4, st=8, race=True)]),
-        "C07": dict(pkg="c07", tests=[T("TestLiveSQL", 6400, 48000, sq=8, st=16, race=True)]),
+        "C07": dict(pkg="c07", tests=[T("TestLiveSQL", 9600, 64000, sq=8, st=16, race=True)]),
         "C08": dict(pkg="c08", tests=[T("TestPinned"), T("TestCache", 7200, 96000, sq=8, st=16, race=True), T("TestRegisterRace", 1600, 24000, sq=4, st=8, pkg="c04")]),
         "C09": dict(pkg="c09", fuzz=[dict(name="FuzzMergeAlgebra", secs=45)], tests=[T("TestKnownOrder"), T("TestMergeAlgebra", 12000, 160000, sq=8, st=16), T("TestVersionedGateway", 240, 8000, sq=4, st=8), T("TestRefreshAfterChange", 240, 4000, sq=3, st=8, pkg="c06")]),
         "C10": dict(pkg="c10", fuzz=[dict(name="FuzzBatchTransparent", secs=40)], tests=[T("TestBatchTransparent", 4800, 48000, sq=8, st=16, race=True)]),
